@@ -1,10 +1,10 @@
 //go:build verif
 
-// op ast (C19): getFuncAST + extractArgumentsType through the hook
-// stack.VerifFuncTypes, on generated Go files and on files of the standard
-// library.  One case per file:
+// op ast (C19): getFuncAST (with matchFuncDecl) + extractArgumentsType through
+// the hook stack.VerifFuncTypes, on generated Go files and on files of the
+// standard library.  One case per file:
 //
-//	ast id src lines expect feat | tree results
+//	ast id src lines expect feat names | tree results
 //
 //	lines   = "l1,l2,..." the lines queried
 //	expect  = per line "-" (no expectation) or "<class><pos>:<hex name>": the top-level function whose source extent
@@ -12,14 +12,19 @@
 //	          class b: after the line of the func keyword, o: a function written on one line, h: the line of the
 //	          func keyword of a longer function, c: a line strictly inside the body of a function LITERAL (only
 //	          frames of the literal can carry it: no declaration describes them; "c0:x" outside any function).
-//	          Synthetic files: recorded by the generator while it writes the
-//	          text; library files: from token.FileSet line numbers of FuncDecl.Pos()/End().
+//	          Synthetic files: recorded by the generator while it writes the text; library files: from
+//	          token.FileSet line numbers of FuncDecl.Pos()/End().
 //	feat    = generator features (coverage tags)
+//	names   = per line (",") the frame names queried ("|"), each "<kind><hex>": e = the traceback name of the
+//	          enclosing declaration ("f", "T.m", "(*T).m", "F[...]", "(*T[...]).m"), l = the name of a function
+//	          literal of it ("<e>.func1", "init.func1"), p / n = the names of the previous / next declaration,
+//	          z = a name no declaration has, h = a hostile name
 //	tree    = what ast.Inspect shows for the parsed file, built with ast.Inspect itself (push on a node, pop on
 //	          nil): "(pos child...)", a leaf is the atom "pos", a FuncDecl is "(pos (fd name recv params) child...)",
 //	          recv = "-" | "(field...)", field = "(len(Names) texpr)", texpr as in Model/Source.v;  "-" when the
 //	          file does not parse
-//	results = per line "F:<pos>:<hex name>:<types>:<ellipsis>" | "N" | "E:overline" | "E:parse" | "PANIC"
+//	results = per line (";") and per name ("|"): "F:<pos>:<hex name>:<types>:<ellipsis>" | "N" | "E:overline" |
+//	          "E:parse" | "PANIC"
 package main
 
 import (
@@ -84,6 +89,14 @@ func texprSx(b *strings.Builder, e ast.Expr) {
 		b.WriteString(")")
 	case *ast.BasicLit:
 		b.WriteString("(l " + hexs([]byte(t.Value)) + ")")
+	case *ast.IndexExpr:
+		b.WriteString("(x ")
+		texprSx(b, t.X)
+		b.WriteString(")")
+	case *ast.IndexListExpr:
+		b.WriteString("(x ")
+		texprSx(b, t.X)
+		b.WriteString(")")
 	default:
 		b.WriteString("o")
 	}
@@ -162,13 +175,13 @@ func inspectTree(f *ast.File) *tnode {
 	return root
 }
 
-func astOne(src []byte, line int) (res string) {
+func astOne(src []byte, fn string, line int) (res string) {
 	defer func() {
 		if e := recover(); e != nil {
 			res = "PANIC"
 		}
 	}()
-	found, name, pos, types, ell, err := stack.VerifFuncTypes(src, "x", line)
+	found, name, pos, types, ell, err := stack.VerifFuncTypes(src, fn, line)
 	if err != nil {
 		if strings.Contains(err.Error(), "is over line count of") {
 			return "E:overline"
@@ -189,7 +202,7 @@ func astOne(src []byte, line int) (res string) {
 	return fmt.Sprintf("F:%d:%s:%s:%s", pos, hexs([]byte(name)), ts, b2s(ell))
 }
 
-func emitAst(id string, src []byte, lines, expect, feat string) {
+func emitAst(id string, src []byte, lines, expect, feat, names string) {
 	tree := "-"
 	fset := token.NewFileSet()
 	if f, err := parser.ParseFile(fset, "x.go", src, 0); err == nil {
@@ -197,12 +210,142 @@ func emitAst(id string, src []byte, lines, expect, feat string) {
 		inspectTree(f).sx(&b)
 		tree = b.String()
 	}
+	ls, ns := strings.Split(lines, ","), strings.Split(names, ",")
 	var res []string
-	for _, l := range strings.Split(lines, ",") {
+	for i, l := range ls {
 		n, _ := strconv.Atoi(l)
-		res = append(res, astOne(src, n))
+		var rr []string
+		for _, nm := range strings.Split(ns[i], "|") {
+			rr = append(rr, astOne(src, string(unhexs(nm[1:])), n))
+		}
+		res = append(res, strings.Join(rr, "|"))
 	}
-	emit("ast", id, hexs(src), lines, expect, feat, tree, strings.Join(res, ";"))
+	emit("ast", id, hexs(src), lines, expect, feat, names, tree, strings.Join(res, ";"))
+}
+
+// ---- frame names ----
+
+// tbName is the name the runtime prints for the declaration (without the
+// package): "f", "F[...]", "T.m", "(*T).m", "T[...].m", "(*T[...]).m"
+// (checked against go1.23 tracebacks of a compiled program).  ok is false for
+// receivers no compilable program has.
+func tbName(fd *ast.FuncDecl) (string, bool) {
+	if fd.Recv == nil {
+		if fd.Type.TypeParams != nil {
+			return fd.Name.Name + "[...]", true
+		}
+		return fd.Name.Name, true
+	}
+	if len(fd.Recv.List) != 1 {
+		return "", false
+	}
+	t := fd.Recv.List[0].Type
+	ptr := false
+	if s, ok := t.(*ast.StarExpr); ok {
+		ptr, t = true, s.X
+	}
+	gen := ""
+	switch x := t.(type) {
+	case *ast.IndexExpr:
+		gen, t = "[...]", x.X
+	case *ast.IndexListExpr:
+		gen, t = "[...]", x.X
+	}
+	id, ok := t.(*ast.Ident)
+	if !ok {
+		return "", false
+	}
+	if ptr {
+		return "(*" + id.Name + gen + ")." + fd.Name.Name, true
+	}
+	return id.Name + gen + "." + fd.Name.Name, true
+}
+
+var astHostile = []string{"", ".", "..", "[...]", "(*).m", "(*T.m", "T).m", "a.b.c", "(*", ")", "(*)", "(*).", "main", "init.0", "init.func1", "glob..func1"}
+
+// astNames chooses the frame names queried for every line.
+func astNames(r *rand.Rand, src []byte, lines, expect string) string {
+	ls, ex := strings.Split(lines, ","), strings.Split(expect, ",")
+	fset := token.NewFileSet()
+	f, err := parser.ParseFile(fset, "x.go", src, 0)
+	var fds []*ast.FuncDecl
+	if err == nil {
+		for _, d := range f.Decls {
+			if fd, ok := d.(*ast.FuncDecl); ok {
+				fds = append(fds, fd)
+			}
+		}
+	}
+	one := func(kind, nm string) string { return kind + hexs([]byte(nm)) }
+	var out []string
+	for i, l := range ls {
+		n, _ := strconv.Atoi(l)
+		var q []string
+		k := -1 // the enclosing declaration
+		if e := ex[i]; e != "-" && e[0] != 'c' || e != "-" && e[1] != '0' {
+			pos, _ := strconv.Atoi(e[1:strings.IndexByte(e, ':')])
+			for j, fd := range fds {
+				if int(fd.Pos()) == pos {
+					k = j
+				}
+			}
+		}
+		prev, next := k-1, k+1
+		if k < 0 { // between declarations: the nearest ones by line
+			prev, next = -1, len(fds)
+			for j, fd := range fds {
+				if fset.Position(fd.Pos()).Line < n {
+					prev = j
+				} else if next == len(fds) {
+					next = j
+				}
+			}
+		}
+		own := ""
+		if k >= 0 {
+			if nm, ok := tbName(fds[k]); ok {
+				own = nm
+				q = append(q, one("e", nm))
+			}
+		}
+		if ex[i] != "-" && ex[i][0] == 'c' {
+			switch {
+			case own != "":
+				q = append(q, one("l", own+fmt.Sprintf(".func%d", 1+r.Intn(3))))
+			case k < 0:
+				q = append(q, one("l", []string{"init.func1", "glob..func1"}[r.Intn(2)]))
+			}
+		}
+		if prev >= 0 && prev < len(fds) {
+			if nm, ok := tbName(fds[prev]); ok {
+				q = append(q, one("p", nm))
+			}
+		}
+		if next >= 0 && next < len(fds) {
+			if nm, ok := tbName(fds[next]); ok {
+				q = append(q, one("n", nm))
+			}
+		}
+		q = append(q, one("z", "zzz"))
+		if r.Intn(5) == 0 {
+			h := astHostile[r.Intn(len(astHostile))]
+			if len(fds) > 0 && r.Intn(2) == 0 {
+				// built from a real declaration
+				fd := fds[r.Intn(len(fds))]
+				if k >= 0 && r.Intn(2) == 0 {
+					fd = fds[k]
+				}
+				nm, _ := tbName(fd)
+				m := fd.Name.Name
+				h = []string{"." + m, m + "[...][...]", "[...]" + nm, "[..[...].]" + m, "(*T." + m, "T)." + m, "(*)." + m,
+					nm + "-fm", nm + ".func1", "x." + nm, nm + ".", strings.ReplaceAll(nm, "(*", "("), strings.ReplaceAll(nm, ")", ""),
+					strings.ReplaceAll(nm, "[...]", ""), strings.ReplaceAll(nm, ".", "[...]."), "(*" + m + ")." + m, m + "." + m}[r.Intn(17)]
+			}
+			q = append(q, one("h", h))
+		}
+		out = append(out, strings.Join(q, "|"))
+	}
+	return strings.Join(out, ",")
 }
 
 // ---- synthetic files ----
@@ -714,15 +857,15 @@ func opAst(r *rand.Rand, n int, tier string) {
 			rel := std[si]
 			si++
 			if src, lines, expect, feat, ok := genAstStd(r, rel, tier); ok {
-				emitAst(fmt.Sprintf("ast-%d-std:%s", i, rel), src, lines, expect, feat)
+				emitAst(fmt.Sprintf("ast-%d-std:%s", i, rel), src, lines, expect, feat, astNames(r, src, lines, expect))
 				continue
 			}
 		}
 		src, lines, expect, feat := genAstFile(r)
-		emitAst(fmt.Sprintf("ast-%d", i), src, lines, expect, feat)
+		emitAst(fmt.Sprintf("ast-%d", i), src, lines, expect, feat, astNames(r, src, lines, expect))
 	}
 }
 
 func init() {
-	replayers["ast"] = func(id string, in []string) { emitAst(id, unhexs(in[0]), in[1], in[2], in[3]) }
+	replayers["ast"] = func(id string, in []string) { emitAst(id, unhexs(in[0]), in[1], in[2], in[3], in[4]) }
 }
